@@ -84,6 +84,7 @@ def templates():
     add("Lambda0", 1, lambda a: ast.Lambda(args=args(), body=a))
     add("Lambda:defaults", 3, lambda a, b, c: ast.Lambda(args=args(posonly=["p"], a=["q", "r"], vararg="v", kwonly=["k", "m"],
                                                                kw_defaults=[None, b], kwarg="z", defaults=[a]), body=c))
+    add("Lambda:posonly-defaults", 4, lambda a, b, c, d: ast.Lambda(args=args(posonly=["p", "q"], a=["r"], defaults=[a, b, c]), body=d))
     add("Lambda:kwonly", 2, lambda a, b: ast.Lambda(args=args(kwonly=["k"], kw_defaults=[a]), body=b))
     add("ListComp", 3, lambda a, b, c: ast.ListComp(elt=a, generators=[comp(S("i"), b, [c])]))
     add("ListComp:2gen", 4, lambda a, b, c, d: ast.ListComp(elt=a, generators=[comp(S("i"), b), comp(
@@ -163,3 +164,22 @@ def right_edge_tree(rng, depth):
         kids[rng.choice([t[1] - 1, t[1] - 1, 0])] = e
         e = build(t, kids)
     return e
+
+
+def lambda_signatures():
+    """every shape of a lambda signature: 0-2 positional-only, 0-2 positional, every count of defaults, *args or a bare *,
+    0-2 keyword-only with every pattern of defaults, **kwargs"""
+    names = "pqrstuvw"
+    for npos in range(3):
+        for na in range(3):
+            for nd in range(npos + na + 1):
+                for va in (None, "va"):
+                    for nk in range(3):
+                        for mask in itertools.product([False, True], repeat=nk):
+                            for kw in (None, "kw"):
+                                po = list(names[:npos])
+                                ar = list(names[npos:npos + na])
+                                ko = ["k%d" % i for i in range(nk)]
+                                kd = [K(i) if m else None for i, m in enumerate(mask)]
+                                yield ast.Lambda(args=args(posonly=po, a=ar, vararg=va, kwonly=ko, kw_defaults=kd, kwarg=kw,
+                                                           defaults=[K(10 + i) for i in range(nd)]), body=N("x"))
